@@ -567,6 +567,7 @@ pub fn run_depth_bound_case(out: &mut Out, rng: &mut Rng, thorough: bool) {
     // the first child's heavy branch has 1-2 blocks; the others as many or more (same total: the
     // tie is then decided by the number of blocks, then by arrival order)
     let parts0 = rng.range(1, 2) as u128;
+    let ingest_each = rng.chance(1, 4);
     for (i, (heavy_branch, long_chain)) in plans.iter().enumerate() {
         let first = firsts[i];
         if *heavy_branch {
@@ -590,10 +591,16 @@ pub fn run_depth_bound_case(out: &mut Out, rng: &mut Rng, thorough: bool) {
                 p = push(out, &mut case, rng, p, if target >= 1000 { 1 } else { 0u128.max(1) });
             }
         }
-        if !ingest(out) { out.count("case-cut-after-trap"); return; }
-        sync_alive(&mut case);
-        if case.alive.is_empty() { return; }
+        if ingest_each {
+            if !ingest(out) { out.count("case-cut-after-trap"); return; }
+            sync_alive(&mut case);
+            // the remaining children may have been discarded with the old anchor
+            if firsts.iter().skip(i + 1).any(|f| !case.alive.contains(f)) { break; }
+        }
     }
+    // usually the whole tree is built before the first ingestion opportunity
+    if !ingest(out) { out.count("case-cut-after-trap"); return; }
+    sync_alive(&mut case);
     // a few more rounds: extend random tips, ingest, compare what every endpoint serves
     for _ in 0..4 {
         let parent = pick_parent(rng, &case);
